@@ -356,7 +356,9 @@ class Check:
         self.cov["evaluations"] += r["events"]
         self.cov["tv_runs"].append({"trace": name, "events": r["events"], "sessions": r["sessions"],
                                     "tlc_states": r["states"], "rejected": len(r["rejects"])})
-        for ln, obj in r["lines"][:sample_events]:
+        # a few actual events as samples: prefer ones that are neither trivial nor huge
+        picked = [obj for ln, obj in r["lines"] if 250 <= len(ln) <= 6000][:sample_events] or [obj for ln, obj in r["lines"][:sample_events]]
+        for obj in picked:
             self.cov["samples"].append(_shorten(obj))
 
     def violation(self, signature, description, replay_obj):
